@@ -174,6 +174,12 @@ fn defs() -> Vec<Def> {
         "f() { for i in 1 '2 3'; do p \"$i\"; done; while s 1; do p w; done; }",
         "f() { ! p a && p b || { p c; }; }",
         "f() { p a & wait; y=$(p b; p c); p \"${y:-d}\" ${#y} ${y#a*}; }",
+        // redirections on the body itself
+        "f() { p a; } >&2",
+        "f() (p a) 2>/dev/null <&-",
+        "f() if s 0; then p a; fi </dev/null >>/tmp/o",
+        "f() while s 1; do p a; done 3>&1",
+        "f() { { p a; } >/dev/null; } 2>&1",
         "g() { f() { p inner; }; }",
     ] {
         v.push(Def { text: f.to_string(), kind: "func" });
